@@ -264,6 +264,9 @@ pub enum P2Ev {
     /// the DHCP server answers the client's latest message: DISCOVER -> OFFER, REQUEST -> ACK
     /// (lease of `lease_s` seconds, T1/T2 left to the client's defaults)
     DhcpAnswer { lease_s: u32 },
+    /// like DhcpAnswer, with explicit renewal (T1, option 58) and rebinding (T2, option 59)
+    /// times - also inconsistent ones (T2 < T1, T2 = lease), which a client must not schedule by
+    DhcpAnswerTimers { lease_s: u32, t1_s: u32, t2_s: u32 },
     /// the DHCP server refuses the client's latest REQUEST
     DhcpNak,
 }
@@ -318,7 +321,7 @@ impl P2 {
             }
         }
     }
-    fn dhcp_reply(&mut self, ty: smoltcp::wire::DhcpMessageType, xid: u32, lease_s: u32) {
+    fn dhcp_reply(&mut self, ty: smoltcp::wire::DhcpMessageType, xid: u32, lease_s: u32, timers: Option<(u32, u32)>) {
         use smoltcp::wire::*;
         let server = Ipv4Address::new(192, 168, 1, 2);
         let client = Ipv4Address::new(192, 168, 1, 1);
@@ -341,8 +344,8 @@ impl P2 {
             dns_servers: None,
             max_size: None,
             lease_duration: if ty == DhcpMessageType::Nak { None } else { Some(lease_s) },
-            renew_duration: None,
-            rebind_duration: None,
+            renew_duration: if ty == DhcpMessageType::Nak { None } else { timers.map(|t| t.0) },
+            rebind_duration: if ty == DhcpMessageType::Nak { None } else { timers.map(|t| t.1) },
             additional_options: &[],
         };
         let dl = r.buffer_len();
@@ -495,15 +498,24 @@ impl P2 {
                 // the server is also the resolved neighbor the unicast renewals go to
                 self.arp_reply_from_peer();
                 match self.last_dhcp.take() {
-                    Some((M::Discover, xid)) => self.dhcp_reply(M::Offer, xid, *lease_s),
-                    Some((M::Request, xid)) => self.dhcp_reply(M::Ack, xid, *lease_s),
+                    Some((M::Discover, xid)) => self.dhcp_reply(M::Offer, xid, *lease_s, None),
+                    Some((M::Request, xid)) => self.dhcp_reply(M::Ack, xid, *lease_s, None),
+                    _ => {}
+                }
+            }
+            P2Ev::DhcpAnswerTimers { lease_s, t1_s, t2_s } => {
+                use smoltcp::wire::DhcpMessageType as M;
+                self.arp_reply_from_peer();
+                match self.last_dhcp.take() {
+                    Some((M::Discover, xid)) => self.dhcp_reply(M::Offer, xid, *lease_s, Some((*t1_s, *t2_s))),
+                    Some((M::Request, xid)) => self.dhcp_reply(M::Ack, xid, *lease_s, Some((*t1_s, *t2_s))),
                     _ => {}
                 }
             }
             P2Ev::DhcpNak => {
                 use smoltcp::wire::DhcpMessageType as M;
                 if let Some((M::Request, xid)) = self.last_dhcp.take() {
-                    self.dhcp_reply(M::Nak, xid, 0);
+                    self.dhcp_reply(M::Nak, xid, 0, None);
                 }
             }
             P2Ev::RouterAdvert { lifetime_s, prefix } => {
@@ -621,6 +633,9 @@ impl Harness for P2 {
             if self.last_dhcp.is_some() {
                 v.push((P2Ev::DhcpAnswer { lease_s: 1000 }, 0));
                 v.push((P2Ev::DhcpAnswer { lease_s: 60 }, 0));
+                v.push((P2Ev::DhcpAnswerTimers { lease_s: 100, t1_s: 60, t2_s: 30 }, 0));
+                v.push((P2Ev::DhcpAnswerTimers { lease_s: 100, t1_s: 30, t2_s: 60 }, 0));
+                v.push((P2Ev::DhcpAnswerTimers { lease_s: 100, t1_s: 50, t2_s: 100 }, 0));
                 v.push((P2Ev::DhcpNak, 0));
             }
             return v;
